@@ -22,7 +22,8 @@ RULE = ("random histories of insert/remove/find/clear (+ allocation scripts in ~
         "non-trivial = history with at least 5 ops; distinct case strings counted")
 ASSUMPTIONS = [
     "comparator = total preorder induced by an integer rank (the driver compares int keys); elements with equal "
-    "rank and different identity are exercised (EXISTS keeps the stored pointer)",
+    "rank and different identity are exercised (EXISTS keeps the stored pointer); the magnitude of a non-zero result is "
+    "-1/1, the key difference, or INT_MIN/INT_MAX (case flags d, x): only the sign may matter",
     "64-bit pointers/size_t (static assert in the driver); iterator indexes are uint16_t and the sources statically reject "
     "LEAF_VALS > 65535 (fix 627c158, checked by C02), so the model's untruncated indexes are exact",
     "elements are opaque pointers: in about half of the histories one element at a time is represented by the NULL pointer in "
@@ -60,10 +61,13 @@ def gen(ctx, seed, tier):
             # legitimate element; at most one at a time, wherever the random history puts it: root leaf, mid-leaf, first
             # slot, separator of an internal page); clear/free must still destroy it exactly once
             null_p = r.choice([0.0, 0.0, 0.1, 0.3])
+            # the comparator contract is the SIGN of the result: a quarter of the histories use a comparator that returns
+            # the key difference (flag 'd') or INT_MIN / INT_MAX (flag 'x') instead of -1 / 1
+            style = r.choice(["", "", "", "", "", "", "d", "x"])
             if r.random() < 0.4:
-                cases.append(bt.gen_history(r, page, tier, flags="a", oracle_p=0.35, null_p=null_p).line())
+                cases.append(bt.gen_history(r, page, tier, flags="a" + style, oracle_p=0.35, null_p=null_p).line())
             else:
-                cases.append(bt.gen_history(r, page, tier, null_p=null_p).line())
+                cases.append(bt.gen_history(r, page, tier, flags=style or "-", null_p=null_p).line())
     if seed == ctx.seed:
         # a few histories AT the capacity of page size 64 (fix 1a03612: insert is refused with OVERFLOW, nothing else
         # changes); they fail the spec's status clause and are classified as the known finding C01-MAXHEIGHT when the
